@@ -403,7 +403,7 @@ def operator_mapping(ctx, fn: FuncInfo):
     # class-keyed dict:  inverse = TABLE.get(type(op));  if inverse is None: return None;  ... inverse()
     fa = ctx.flow(fn)
     for n in walk_no_nested(fn.node):
-        if isinstance(n, (ast.Assign, ast.AnnAssign)) and n.value is not None:
+        if isinstance(n, (ast.Assign, ast.AnnAssign, ast.NamedExpr)) and n.value is not None:
             t = class_table(ctx, fn, n.value)
             if t is None:
                 continue
